@@ -6,6 +6,11 @@ from ..suites_hist import Histories
 class C01(Prop):
     pid = 'C01'
     suites = [Histories()]
+    trusted_base = ['the reference evaluator (harness/tcv/gen_pipeline.ref_value) and the frozen scheme renderer used by the oracle']
+    assumptions = ['task computations are deterministic functions of their persisted parameters and inputs',
+                   'location_determines_denotation (discharged by C03 under the no-collision hypothesis on SHA-256) and '
+                   'well-founded inputs (C08) are hypotheses of the C01 theorems',
+                   'parameter mode; JSON and in-memory data classes in the history model']
 
 
 PROP = C01()
